@@ -261,24 +261,17 @@ fn ark_extras<F: FL>(ctx: &Ctx, rec: &mut Rec) {
     let zoo = field_zoo(f);
     let n = F::NBYTES;
     let nm = |s: &str| format!("{}: {}", F::NAME, s);
-    for x in ["(de)serialize_with_flags<EmptyFlags>", "(de)serialize_with_flags<TEFlags>", "(de)serialize_with_flags<SWFlags>", "FromStr", "Distribution<F>::sample", "From<BigInt>"] {
+    for x in ["(de)serialize_with_flags<EmptyFlags>", "(de)serialize_with_flags<TEFlags>", "(de)serialize_with_flags<SWFlags>", "FromStr", "Distribution<F>::sample", "From<BigInt>", "Display under format specifications"] {
         rec.declare_form(&nm(x));
     }
     // non-standard flag types: 4 and 8 flag bits do not fit into the spare bits of the last byte (an extra
     // byte is emitted), 9 bits exceed what the format allows (NotEnoughSpace on both sides)
     #[derive(Default, Clone, Copy, PartialEq, Debug)]
-    struct Nib(u8);
-    impl Flags for Nib {
-        const BIT_SIZE: usize = 4;
-        fn u8_bitmask(&self) -> u8 { self.0 << 4 }
-        fn from_u8(value: u8) -> Option<Self> { Some(Nib(value >> 4)) }
-    }
-    #[derive(Default, Clone, Copy, PartialEq, Debug)]
-    struct ByteFlag(u8);
-    impl Flags for ByteFlag {
-        const BIT_SIZE: usize = 8;
-        fn u8_bitmask(&self) -> u8 { self.0 }
-        fn from_u8(value: u8) -> Option<Self> { Some(ByteFlag(value)) }
+    struct FlagsN<const N: usize>(u8);
+    impl<const N: usize> Flags for FlagsN<N> {
+        const BIT_SIZE: usize = N;
+        fn u8_bitmask(&self) -> u8 { if N == 0 { 0 } else { self.0 << (8 - N) } }
+        fn from_u8(value: u8) -> Option<Self> { Some(FlagsN(if N == 0 { 0 } else { value >> (8 - N) })) }
     }
     #[derive(Default, Clone, Copy, PartialEq, Debug)]
     struct Wide(u8);
@@ -287,8 +280,7 @@ fn ark_extras<F: FL>(ctx: &Ctx, rec: &mut Rec) {
         fn u8_bitmask(&self) -> u8 { self.0 }
         fn from_u8(value: u8) -> Option<Self> { Some(Wide(value)) }
     }
-    rec.declare_form(&nm("(de)serialize_with_flags<4-bit flags>"));
-    rec.declare_form(&nm("(de)serialize_with_flags<8-bit flags>"));
+    rec.declare_form(&nm("(de)serialize_with_flags<1..8-bit flags>"));
     rec.declare_form(&nm("(de)serialize_with_flags<9-bit flags> refused"));
     fn flag_rt<F: ark_ff::PrimeField, FL: Flags + PartialEq>(v: &F, fl: FL) -> Result<(Vec<u8>, usize), String> {
         let mut o = Vec::new();
@@ -324,12 +316,16 @@ fn ark_extras<F: FL>(ctx: &Ctx, rec: &mut Rec) {
                     out.push(("(de)serialize_with_flags<SWFlags>", flag_rt(&lv, fl), SWFlags::BIT_SIZE));
                 }
                 if i % 4 == 0 {
-                    for k in [0u8, 1, 0x8, 0xf, (i % 16) as u8] {
-                        out.push(("(de)serialize_with_flags<4-bit flags>", flag_rt(&lv, Nib(k)), 4));
+                    // every flag width 1..=8: widths that exactly fill the spare bits of the last byte, that spill
+                    // into an extra byte, and everything between
+                    macro_rules! widths {
+                        ($($n:literal),*) => { $(
+                            for k in [0u8, 1, ((1u16 << $n) - 1) as u8, (i as u8) & (((1u16 << $n) - 1) as u8)] {
+                                out.push(("(de)serialize_with_flags<1..8-bit flags>", flag_rt(&lv, FlagsN::<$n>(k)), $n));
+                            }
+                        )* };
                     }
-                    for k in [0u8, 1, 0x80, 0xff, (i % 256) as u8] {
-                        out.push(("(de)serialize_with_flags<8-bit flags>", flag_rt(&lv, ByteFlag(k)), 8));
-                    }
+                    widths!(1, 2, 3, 4, 5, 6, 7, 8);
                     // 9 flag bits: both directions must refuse
                     let mut o = Vec::new();
                     let ser_refused = lv.serialize_with_flags(&mut o, Wide(1)).is_err();
@@ -413,6 +409,30 @@ fn ark_extras<F: FL>(ctx: &Ctx, rec: &mut Rec) {
                                         }
                                     }
                                 }
+                            }
+                        }
+                    }
+                }
+            }
+            // Display under format specifications (precision, width, fill, sign, alternate): whatever padding the
+            // impl honours, the digits printed must still be the canonical decimal expansion
+            if i % 8 == 0 {
+                let want_digits = if v == &b(0) { String::new() } else { v.to_string() };
+                let lv2 = lv;
+                let outs = guarded(move || vec![
+                    ("{:.12}", format!("{:.12}", lv2)), ("{:.0}", format!("{:.0}", lv2)), ("{:>90}", format!("{:>90}", lv2)), ("{:<5}", format!("{:<5}", lv2)),
+                    ("{:*^100}", format!("{:*^100}", lv2)), ("{:+}", format!("{:+}", lv2)), ("{:090}", format!("{:090}", lv2)), ("{:#}", format!("{:#}", lv2)),
+                    ("{:10.3}", format!("{:10.3}", lv2)), ("to_string()", lv2.to_string()),
+                ]);
+                rec.form(&nm("Display under format specifications"));
+                match outs {
+                    Err(pn) => rec.violation(format!("{P}:{}:panic", nm("Display under format specifications")), pn, json!({"v": hexs(v)})),
+                    Ok(list) => {
+                        for (spec, text) in list {
+                            let core: String = text.trim_matches(|ch| ch == ' ' || ch == '*').trim_start_matches('+').to_string();
+                            let core = if spec == "{:090}" { let t = core.trim_start_matches('0'); t.to_string() } else { core };
+                            if core != want_digits && !(want_digits.is_empty() && core == "0") {
+                                rec.violation(format!("{P}:{}:digits-changed", nm("Display under format specifications")), format!("format!(\"{spec}\") of {} prints `{text}`", hexs(v)), json!({"v": hexs(v), "spec": spec}));
                             }
                         }
                     }
